@@ -452,8 +452,18 @@ class CallMixin:
         if not n.args:
             raise Unsupported('list() without hint')
         v = self.ev(n.args[0], st)
-        s = self.as_seq(v, st)
+        if isinstance(v.t, T._Str):
+            k = z3.Int(fresh_name('k'))
+            s = mk_seq(T.Str, z3.Length(v.z), z3.Lambda([k], z3.SubString(v.z, k, 1)))
+        else:
+            s = self.as_seq(v, st)
         return s if self.spec else self.new_list_from_seq(s, st)
+
+    def bi_chars(self, n, st):
+        """spec: the characters of a string as a sequence of one-character strings."""
+        v = self.ev(n.args[0], st)
+        k = z3.Int(fresh_name('k'))
+        return mk_seq(T.Str, z3.Length(v.z), z3.Lambda([k], z3.SubString(v.z, k, 1)))
 
     def bi_seq(self, n, st):
         return self.as_seq(self.ev(n.args[0], st), st)
@@ -471,6 +481,9 @@ class CallMixin:
         if not isinstance(n.args[1], ast.Constant):
             raise Unsupported('getattr with computed name')
         nm = n.args[1].value
+        if isinstance(v.t, T._Str) and ('strattr_' + nm) in self.eng.prop.uf:
+            # attribute of a str subclass instance (Text node): uninterpreted "attribute value or default"
+            return self.call_spec_or_uf('strattr_' + nm, [v], st)
         if len(n.args) == 2:
             return self.getattr(v, nm, st, n)
         d = self.ev(n.args[2], st)
@@ -518,9 +531,11 @@ class CallMixin:
         src = ast.unparse(f)
         P = self.eng.prop
         if src in self.c.calls:
-            recv = self.ev(f.value, st)
+            cc = P.contracts[self.c.calls[src]]
             args, kw = self.args_of(n, st)
-            return self.call_contract(P.contracts[self.c.calls[src]], [recv] + args, kw, st, n)
+            if list(cc.params)[:1] == ['self'] and not (isinstance(f.value, ast.Name) and f.value.id not in st.locals):
+                args = [self.ev(f.value, st)] + args
+            return self.call_contract(cc, args, kw, st, n)
         # logging calls are skipped after evaluating the arguments (assumption A6)
         root = f.value
         while isinstance(root, ast.Attribute):
@@ -567,12 +582,29 @@ class CallMixin:
         if meth in ('lower', 'upper', 'strip') and not args:
             return self.call_spec_or_uf('str_' + meth, [s], st)
         if meth == 'replace' and len(args) == 2:
-            return self.call_spec_or_uf('str_replace', [s] + args, st)
+            return SV(T.Str, self.str_replace(s.z, args[0], args[1], st))
         if meth == 'join' and len(args) == 1:
             return self.call_spec_or_uf('str_join', [s, self.as_seq(args[0], st)], st)
+        if meth == 'isdigit' and not args and False:
+            pass
         if meth == 'isdigit' and not args:
             return self.call_spec_or_uf('str_isdigit', [s], st)
         raise Unsupported('str.%s (line %s)' % (meth, n.lineno))
+
+    def str_replace(self, z, a, b, st):
+        """str.replace(a, b) (all occurrences).  Exact for concrete strings and, for a one-character pattern, for
+        subjects of length <= 1; distributed over if-then-else; an uninterpreted function otherwise (A4)."""
+        z = z3.simplify(z)
+        if z3.is_string_value(z) and z3.is_string_value(a.z) and z3.is_string_value(b.z):
+            return z3.StringVal(z.as_string().replace(a.z.as_string(), b.z.as_string()))
+        if z3.is_app(z) and z.decl().kind() == z3.Z3_OP_ITE:
+            c, x, y = z.children()
+            return z3.If(c, self.str_replace(x, a, b, st), self.str_replace(y, a, b, st))
+        u = self.call_spec_or_uf('str_replace', [SV(T.Str, z), a, b], st).z
+        if z3.is_string_value(a.z) and len(a.z.as_string()) == 1:
+            return z3.If(z3.Length(z) == 0, z3.StringVal(''),
+                         z3.If(z3.Length(z) == 1, z3.If(z == a.z, b.z, z), u))
+        return u
 
     def list_method(self, lst, meth, n, st):
         args = [self.ev(a, st) for a in n.args]
@@ -642,4 +674,6 @@ BUILTIN_UF = {
     'str_strip': ([T.Str], T.Str, None),
     'str_replace': ([T.Str, T.Str, T.Str], T.Str, None),
     'str_isdigit': ([T.Str], T.Bool, None),
+    'str_join': ([T.Str, T.Seq(T.Str)], T.Str, None),
+    'fmt_03d': ([T.Int], T.Str, None),
 }
